@@ -191,3 +191,57 @@ def split_family():
                      "an application whose own base TLS configuration advertises a library-prefixed protocol is outside the quantifier"],
     )
     return fam
+
+
+# ------------------------------------------------------------------ C11 C12
+SEAL_CONSTS = {"NodeKeys": '{"e1","e2"}', "ServerKeys": '{"g1","g2"}', "KeyIds": '{"k1","k2"}'}
+SEAL_GEN_CFG = "SPECIFICATION Spec\nCONSTANTS\n  NodeKeys = {\"e1\",\"e2\"}\n  ServerKeys = {\"g1\",\"g2\"}\n  KeyIds = {\"k1\",\"k2\"}\n  Depth = 12\nCHECK_DEADLOCK FALSE\n"
+
+
+def seal_materialise(scr):
+    open(os.path.join(scr.spec, "SealGen_a.cfg"), "w").write(SEAL_GEN_CFG)
+
+
+def seal_extra(prop, tier, seed):
+    """exhaustive single-bit flips and truncations of one envelope per message type (C11), and the full record matrix (C12)"""
+    out = []
+    P = lambda e, g, k: dict(e=e, g=g, k=k)
+    none = P("none", "none", "none")
+    if prop == "C11":
+        msgs = ["fetchreq", "creds", "tiny"] if tier == "quick" else ["fetchreq", "fetchresp", "creds", "tiny", "reginfo"]
+        for mi, m in enumerate(msgs):
+            for variant, (rc, rp) in enumerate([(P("e1", "g1", "k1"), none), (P("e2", "g2", "k2"), P("e1", "g1", "k1"))]):
+                step = 7 if tier == "quick" else 1
+                ops = []
+                for i in range(0, 1200 if tier == "quick" else 6000, step):
+                    ops.append(dict(op="Crypt", msg=m, sside="node", rside="server", s=P("e1", "g1", "k1"), rcur=rc, rprev=rp, tamper="flip", at=i))
+                for i in range(0, 200 if tier == "quick" else 800, 3 if tier == "quick" else 1):
+                    ops.append(dict(op="Crypt", msg=m, sside="server", rside="node", s=P("e1", "g1", "k1"), rcur=rc, rprev=rp, tamper="trunc", at=i))
+                out.append(dict(id="x11_%s_%d" % (m, variant), ops=ops))
+    if prop == "C12":
+        ops = []
+        for t, opt in (("roots", []), ("token", []), ("nodeinfo", ["prev.priv"]), ("nodecreds", ["nonce", "prev.priv"])):
+            import itertools
+            for k in range(len(opt) + 1):
+                for sub in itertools.combinations(opt, k):
+                    for wr in (True, False):
+                        ops.append(dict(op="Rec", t=t, present=list(sub), wrapper=wr))
+        for n in ("authorize", "token", "rotate"):
+            ops.append(dict(op="Flow", name=n))
+        out.append(dict(id="x12_matrix", ops=ops))
+    return out
+
+
+def seal_family(prop):
+    return dict(
+        driver="seal", trace_module="SealTrace.tla", trace_consts=SEAL_CONSTS, level="model_checking", fixed=None,
+        materialise=seal_materialise,
+        nontrivial=lambda p, l: (l["op"]["op"] == "Crypt") if p == "C11" else (l["op"]["op"] in ("Rec", "Flow")),
+        mc=dict(quick=[("MC_Seal.tla", "MC_Seal.cfg")], thorough=[("MC_Seal.tla", "MC_Seal.cfg")]),
+        gen=[dict(module="SealGen.tla", cfg="SealGen_a.cfg", depth=12, num=dict(quick=60, thorough=1500), tag="a", beh_cfg={})],
+        extra=seal_extra,
+        rule={"C11": "Crypt lines: sender pair x receiver current/previous pair (matching, one component changed, random) x both sides x five message types x tamper class drawn by TLC, plus driver-built exhaustive single-bit flips and truncations of one envelope per message type; every outcome judged by the symbolic Dec of Seal.tla",
+              "C12": "Rec lines: the full matrix record type x optional-field subset x wrapper on/off (stored bytes inspected, reload with same / no / other wrapper, transplant of a sealed field from a sibling record); Flow lines: operator-authorised, token and rotation flows with storage wrappers on both sides, every message handed to storage searched for the run's secrets"},
+        assumptions=["AES-GCM / X25519 strength is trusted; what is checked is which key, key id and associated data the code uses",
+                     "secrets are searched as raw byte strings in the marshalled messages handed to Storage.Store"],
+    )
